@@ -197,6 +197,18 @@ void pv_set_flag(const char* name, int v) {
     for (int i = 0; i < nflags; ++i) if (!strcmp(flags[i].name, name)) { flags[i].v = v; return; }
     if (nflags < 64) { flags[nflags].name = strdup(name); flags[nflags].v = v; ++nflags; }
 }
+/* transcripts: one digest per case, compared across builds by the orchestrator */
+static struct trow { const char* sec; uint64_t idx, h; }* trows; static size_t ntrows, captrows;
+void pv_transcript(uint64_t h) {
+    pthread_mutex_lock(&rec_mu);
+    if (ntrows == captrows) { captrows = captrows ? captrows * 2 : 4096; trows = realloc(trows, captrows * sizeof *trows); if (!trows) { pthread_mutex_unlock(&rec_mu); pv_fatal("oom transcript"); } }
+    trows[ntrows].sec = pv_cur.section; trows[ntrows].idx = pv_cur.idx; trows[ntrows].h = h; ++ntrows;
+    pthread_mutex_unlock(&rec_mu);
+}
+void pv_tlog(const char* fmt, ...) {
+    if (!pv.verbose) return;
+    va_list ap; va_start(ap, fmt); fputs("T| ", stdout); vfprintf(stdout, fmt, ap); fputc('\n', stdout); va_end(ap);
+}
 void pv_fatal(const char* fmt, ...) {
     va_list ap; va_start(ap, fmt);
     fprintf(stderr, "PV-HARNESS-FAILURE (%s): ", pv.prop); vfprintf(stderr, fmt, ap); fprintf(stderr, "\n");
@@ -259,6 +271,11 @@ static void write_result(bool complete, const char* resume_sec, uint64_t resume_
     }
     fprintf(f, "]}\n");
     fclose(f);
+    if (ntrows) {
+        char tp[4200]; snprintf(tp, sizeof tp, "%s.transcript", pv.out_path);
+        FILE* g = fopen(tp, "w");
+        if (g) { for (size_t i = 0; i < ntrows; ++i) fprintf(g, "%s %llu %016llx\n", trows[i].sec, (unsigned long long)trows[i].idx, (unsigned long long)trows[i].h); fclose(g); }
+    }
     rename(tmp, pv.out_path);
 }
 
@@ -336,6 +353,7 @@ int pv_main(int argc, char** argv, const char* prop, const pv_section* secs, int
         else if (!strcmp(argv[i], "--positive-control")) pv.positive_control = 1;
         else if (!strcmp(argv[i], "--case-timeout") && i + 1 < argc) case_timeout = atol(argv[++i]);
         else if (!strcmp(argv[i], "--verbose")) pv.verbose = 1;
+        else if (!strcmp(argv[i], "--tag") && i + 1 < argc) pv.tag = argv[++i];
         else { fprintf(stderr, "pv: unknown argument %s\n", argv[i]); return 2; }
     }
     if (!pv.golden_dir) pv.golden_dir = getenv("PV_GOLDEN");
